@@ -208,6 +208,16 @@ func parseCons(s string, roles roleMap) ([]cons, error) {
 func (lc *linCtx) stdRoles() roleMap {
 	rm := roleMap{}
 	fn := lc.fn
+	off := 0
+	if fn.Signature.Recv() != nil {
+		off = 1
+	}
+	// documented names first (an implementation may rename its parameters), then the actual ones
+	for i, dn := range declaredParamNames(fn) {
+		if i+off < len(fn.Params) && dn != "" && dn != "_" && isIntType(fn.Params[i+off].Type()) {
+			rm[dn] = linAtom(fn.Params[i+off].Name())
+		}
+	}
 	for _, p := range fn.Params {
 		if isIntType(p.Type()) {
 			rm[p.Name()] = linAtom(p.Name())
@@ -700,16 +710,55 @@ func (lc *linCtx) rangeLoopsOver(fn *ssa.Function, isS func(ssa.Value) bool) []r
 			continue
 		}
 		bo, ok := ifi.Cond.(*ssa.BinOp)
-		if !ok || bo.Op != token.LSS {
+		if !ok || (bo.Op != token.LSS && bo.Op != token.GTR) {
 			continue
 		}
-		// bo.Y = len(S)
-		call, ok := bo.Y.(*ssa.Call)
+		cx, cy := bo.X, bo.Y
+		if bo.Op == token.GTR { // len(S) > k
+			cx, cy = cy, cx
+		}
+		// cy = len(S)
+		call, ok := cy.(*ssa.Call)
 		if !ok || builtinName(call.Common()) != "len" || !isS(call.Common().Args[0]) {
 			continue
 		}
-		// bo.X = φ + 1 with φ = φ(-1, bo.X)
-		add, ok := bo.X.(*ssa.BinOp)
+		// the written-out form `for k := 0; k < len(S); k++`: cx = φ(0, φ+1)
+		if iphi, isPhi := cx.(*ssa.Phi); isPhi && iphi.Block() == h && lp.Blocks[h.Succs[0]] {
+			okPhi := len(iphi.Edges) >= 2
+			for i, e := range iphi.Edges {
+				if !lp.Blocks[h.Preds[i]] {
+					if k, ok := constInt(e); !ok || k != 0 {
+						okPhi = false
+					}
+					continue
+				}
+				inc, isInc := e.(*ssa.BinOp)
+				if !isInc || inc.Op != token.ADD || inc.X != ssa.Value(iphi) {
+					okPhi = false
+					continue
+				}
+				if k, ok := constInt(inc.Y); !ok || k != 1 {
+					okPhi = false
+				}
+			}
+			if okPhi {
+				rl := rangeLoop{lp: lp, idx: iphi, header: h}
+				for b := range lp.Blocks {
+					for _, in := range b.Instrs {
+						if u, ok := in.(*ssa.UnOp); ok && u.Op == token.MUL {
+							if ia, ok := u.X.(*ssa.IndexAddr); ok && isS(ia.X) && ia.Index == ssa.Value(iphi) {
+								rl.elems = append(rl.elems, u)
+							}
+						}
+					}
+				}
+				sort.Slice(rl.elems, func(i, j int) bool { return rl.elems[i].Pos() < rl.elems[j].Pos() })
+				out = append(out, rl)
+			}
+			continue
+		}
+		// cx = φ + 1 with φ = φ(-1, cx)
+		add, ok := cx.(*ssa.BinOp)
 		if !ok || add.Op != token.ADD {
 			continue
 		}
@@ -808,12 +857,7 @@ func (c *Ctx) checkElemDomain(r *fnRef, lc *linCtx, spec elemDomainSpec) {
 		return
 	}
 	fn := r.F
-	var S *ssa.Parameter
-	for _, p := range fn.Params {
-		if p.Name() == spec.Slice {
-			S = p
-		}
-	}
+	S := paramByName(fn, spec.Slice)
 	if S == nil {
 		L.Unknown(spec.Rule, r.label, "slice parameter "+spec.Slice, c.P.Pos(fn.Pos()), "parameter not found")
 		return
